@@ -1,6 +1,7 @@
 package harness
 
 import (
+	"errors"
 	"context"
 	"fmt"
 	"net"
@@ -48,6 +49,7 @@ type Scenario struct {
 	Faults      []Fault     `json:"faults,omitempty"`
 	FiltersOff  bool        `json:"filters_off,omitempty"`
 	CancelAtUs  int64       `json:"cancel_at_us,omitempty"` // cancel the context this long after start (icmp, sack)
+	CancelDL    bool        `json:"cancel_deadline,omitempty"` // the context ends through a deadline of its own (DeadlineExceeded) instead of an explicit cancel
 	HandshakeMs int         `json:"handshake_ms,omitempty"`
 	WriteLagUs  int64       `json:"write_lag_us,omitempty"` // virtual duration of each WriteTo call
 	Reuse       int         `json:"reuse,omitempty"`        // udp/tcp: run the same configuration value this many times in a row
@@ -255,13 +257,7 @@ func RunScenario(t *testing.T, sc *Scenario) *Outcome {
 				cancel() // already cancelled when the run starts
 			}
 			if sc.CancelAtUs > 0 {
-				go func() {
-					select {
-					case <-time.After(us(sc.CancelAtUs)):
-						cancel()
-					case <-ctx.Done():
-					}
-				}()
+				ctx = endingAt(ctx, cancel, us(sc.CancelAtUs), sc.CancelDL)
 			}
 			out.GorBefore = bubbleGoroutines()
 			begin := time.Now()
@@ -332,4 +328,27 @@ func bubbleGoroutines() int {
 		buf = make([]byte, 2*len(buf))
 	}
 	return strings.Count(string(buf), ", synctest bubble ")
+}
+
+// endingAt makes the caller's context end after d: by an explicit cancel (a goroutine calls cancel), or, with
+// deadline set, as a context that carries its own deadline (a library caller's context.WithTimeout).
+func endingAt(ctx context.Context, cancel context.CancelFunc, d time.Duration, deadline bool) context.Context {
+	if deadline {
+		c, stop := context.WithDeadline(ctx, time.Now().Add(d))
+		context.AfterFunc(ctx, stop) // released together with the parent
+		return c
+	}
+	go func() {
+		select {
+		case <-time.After(d):
+			cancel()
+		case <-ctx.Done():
+		}
+	}()
+	return ctx
+}
+
+// isCtxEnd reports whether err is the end of a context (cancelled or past its deadline).
+func isCtxEnd(err error) bool {
+	return errors.Is(err, context.Canceled) || errors.Is(err, context.DeadlineExceeded)
 }
